@@ -996,6 +996,9 @@ type vCase struct {
 	Transport string  `json:"transport"`
 	Cred      vCred   `json:"cred"`
 	Method    string  `json:"method"`
+	// history part only
+	History []string `json:"history,omitempty"`
+	Step    int      `json:"step,omitempty"`
 }
 
 type vVerdict struct {
@@ -1062,13 +1065,15 @@ func TestVerifC19(t *testing.T) {
 		"unknown permission names; expired, other key, other algorithm, alg=none, unsigned, payload swap, non-object payloads, garbage, header malformations, " +
 		"every truncation of an admin token and single-bit flips of it (quick: one bit per signature byte and one per 4 header/payload bytes; thorough: every bit)) x transport {http header, http ?token=, http batch, websocket} x server configuration " +
 		"{auth on, auth on + CORS, auth off (+ metrics in thorough)}. A cell is distinct by (configuration, transport, credential, method) and non-trivial when the " +
-		"server gave a decisive answer (stub reached / 'missing permission' / 401); channel methods over plain http are counted as trivial"
+		"server gave a decisive answer (stub reached / 'missing permission' / 401); channel methods over plain http are counted as trivial. " +
+		"History part: see coverage.history_part"
 	rep.Assumptions = []string{
 		"module implementations are reflective stubs behind the real API structs; the permission proxy, auth handler, token verification, dispatch and transports are the real code",
 		"the perm tag of a method is read from the API struct the node registers; namespaces are attributed to API structs by their exact method sets",
 		"HS256 with a fixed 32-byte key as in nodebuilder/node/auth.go; HMAC/SHA-256 strength itself is not examined",
 		"which methods are sensitive is fixed by the committed table /verif/policy/rpc_min_perms.txt (a reading of the property text); methods not listed there are reported UNCLASSIFIED",
-		"expiry uses the real clock: expired tokens are at least one minute in the past, valid ones 24 h in the future",
+		"expiry uses the real clock: in the matrix expired tokens are at least one minute in the past, valid ones 24 h in the future",
+		"history part: real time, no wall-clock step during a run; a use whose token expires while the request is in flight is not judged; waits sleep until ExpiresAt + margin",
 	}
 
 	if rp := os.Getenv("VERIF_REPLAY"); rp != "" {
@@ -1082,7 +1087,7 @@ func TestVerifC19(t *testing.T) {
 		depth = 1
 		cfgs = append(cfgs, vSrvCfg{Metrics: true}, vSrvCfg{CORS: true, Metrics: true}, vSrvCfg{AuthOff: true, Metrics: true})
 	}
-	deadline := rep.Deadline(75*time.Second, 15*time.Minute)
+	deadline := rep.Deadline(85*time.Second, 15*time.Minute)
 
 	creds, err := vCredentials(depth)
 	if err != nil {
@@ -1231,6 +1236,21 @@ func TestVerifC19(t *testing.T) {
 	}
 	wg.Wait()
 
+	// ---- history part: does the server remember anything about a credential between requests?
+	histLen := 4
+	if rep.Tier == "thorough" {
+		histLen = 5
+	}
+	hst := vRunHistories(vSrvCfg{}, histLen, 256, deadline, func(v *vVerdict, replay vCase) {
+		rep.Violation(v.sig, v.what, replay)
+	})
+	for _, m := range hst.Infra {
+		infra(m)
+	}
+	if !hst.Complete {
+		exhaustive = false
+	}
+
 	// ---- the policy itself: effective level of every method against the committed table
 	classOrder := []string{"none", "class:public", "class:read", "class:read+write", "class:admin"}
 	classLevel := []string{"public", "public", "read", "write", "admin"}
@@ -1305,6 +1325,21 @@ func TestVerifC19(t *testing.T) {
 		exhaustive = false
 	}
 	rep.Count(evals, int64(len(nontrivial)), contexts, evals)
+	rep.Count(hst.Cells, hst.Decisive, int64(hst.Run), hst.Cells)
+	rep.Set("history_part", map[string]any{
+		"what": "every sequence over the event alphabet of length 1..max_len that contains at least one wait, each on its own fresh server (auth on), " +
+			"real time; every use = 1 representative method per declared perm level x 4 transports, judged by the stateless oracle at the time of the use " +
+			"(expired iff the token's own ExpiresAt is before the instant measured right before AND right after the request; disagreement = inconclusive, not judged)",
+		"alphabet": vHistAlphabet, "max_len": hst.MaxLen, "histories_planned": hst.Planned, "histories_run": hst.Run, "uses": hst.Uses,
+		"cells": hst.Cells, "cells_decisive": hst.Decisive, "cells_inconclusive_not_judged": hst.Inconclusive, "cells_by_token_state": hst.ByState,
+		"outcome_histogram": hst.Outcomes, "cells_token_expired_after_a_valid_use_of_it": hst.ExpiredAfterValidUse,
+		"valid_token_cells_reached": hst.ReachedValid, "expired_token_cells_kept_out": hst.KeptOutExpired,
+		"ttl_T1_ms": vHistTTL1.Milliseconds(), "ttl_T2_ms": vHistTTL2.Milliseconds(), "wait_margin_ms": vHistMargin.Milliseconds(),
+		"token_perms": "T1,T2: public+read+write; expired-at-mint: all four", "complete": hst.Complete, "wall_s": hst.Wall,
+	})
+	if hst.Sample != nil {
+		rep.AddSample(hst.Sample)
+	}
 	rep.Set("states_are", "caller contexts: (server configuration, transport, credential) combinations that were set up and driven")
 	rep.Set("transitions_are", "method invocations made from those contexts (equals evaluations)")
 	rep.Set("server_configurations", func() []string {
@@ -1382,6 +1417,42 @@ func vReplay(t *testing.T, rep *vx.Report, path string) {
 		t.Fatalf("replay: %v", err)
 	}
 	cs := doc.Replay
+	if len(cs.History) > 0 {
+		got := 0
+		var last *vVerdict
+		for i := 0; i < 5; i++ {
+			res, err := vRunHistory(cs.Cfg, cs.History)
+			if err != nil {
+				t.Fatalf("replay: %v", err)
+			}
+			hit := false
+			for _, c := range res.Cells {
+				if i == 0 {
+					fmt.Printf("REPLAY-STEP %d %s %s %s token=%s -> reached=%v response=%s\n", c.Step, c.Event, c.Transport, c.Method, c.TokenState, c.Hit, c.Resp)
+				}
+				if c.verdict != nil && c.verdict.sig == doc.Signature {
+					last, hit = c.verdict, true
+				}
+			}
+			if hit {
+				got++
+			}
+		}
+		rep.Count(5, 2, 5, int64(5*len(cs.History)))
+		rep.AddSample(cs)
+		switch {
+		case got == 5:
+			fmt.Printf("REPLAY-RESULT violation reproduced 5/5: %s\n", last.what)
+			rep.Violation(last.sig, last.what, cs)
+		case got == 0:
+			fmt.Println("REPLAY-RESULT no violation")
+		default:
+			fmt.Printf("REPLAY-RESULT violation reproduced only %d/5 (timing-dependent history)\n", got)
+			rep.Violation(last.sig, last.what, cs)
+		}
+		rep.Finish()
+		return
+	}
 	if cs.Method == "" || cs.Transport == "" {
 		fmt.Println("REPLAY-RESULT not an invocation case (policy finding): re-run the check to re-evaluate the policy table")
 		rep.Count(1, 2, 1, 1)
